@@ -46,8 +46,56 @@ def _pycmp(arg):
     return hi - lo, bad
 
 
+def _history_sequence():
+    """Fixed call sequence for the order-independence leg: the hyperframe wrap, steps back over superframe
+    boundaries, two interleaved streams a few frames apart, descending runs, pseudo-random jumps."""
+    SF = 26 * 51
+    seq = [HYPER - 3, HYPER - 2, HYPER - 1, 0, 1, 2, HYPER - 1, 0]
+    for k in (1, 2, 3, 1024, 2047):
+        b = k * SF
+        seq += [b - 2, b - 1, b, b + 1, b, b - 1, b - 2, b + 1325, b - 1, b + SF, b, b - SF, b + 1]
+        for i in range(-6, 7):                 # two streams, 3 frames apart, crossing the boundary
+            seq += [b + i, b + i - 3]
+    seq += list(range(3 * SF + 5, SF - 5, -1))          # descending over two boundaries
+    seq += list(range(HYPER - 1, HYPER - SF - 3, -7))
+    x = 12345
+    for _ in range(3000):
+        x = (x * 1103515245 + 12345) % (1 << 31)
+        seq.append(x % HYPER)
+    return [fn % HYPER for fn in seq]      # frame numbers live on the ring 0..HYPER-1
+
+
+def _history_leg(upto=None):
+    """Calls fn2gsm_time() along the fixed sequence (from process start: nothing else has called it before);
+    -> (calls, [(index, fn, previous fn, got, want)])"""
+    from vlib import world
+    if world.TOOLKIT not in sys.path:
+        sys.path.insert(0, world.TOOLKIT)
+    import gsm_shared
+    f = gsm_shared.HoppingParams.fn2gsm_time
+    seq = _history_sequence()
+    if upto is not None:
+        seq = seq[:upto + 1]
+    bad = []
+    for i, fn in enumerate(seq):
+        p = tuple(f(fn))
+        want = ((fn // 1326) % 2048, fn % 26, fn % 51)
+        if p[:3] != want:
+            bad.append((i, fn, seq[i - 1] if i else None, p, want))
+            if len(bad) >= 5:
+                break
+    return len(seq), bad
+
+
 def run(ctx):
     global _exe, _dump
+    # order-independence of the Python decomposition, before anything else in this process calls it
+    ncalls, bad_hist = _history_leg()
+    ctx.cov["python_history_calls"] = ncalls
+    for i, fn, prev, p, want in bad_hist[:1]:
+        ctx.violation("C19:python-history", {"kind": "py-history", "index": i, "fn": fn, "delta": 0},
+                      "fn2gsm_time(%d) = %r when called after fn2gsm_time(%s) (call %d of the fixed sequence); "
+                      "(T1, T2, T3) = %r is demanded whatever was asked before" % (fn, p, prev, i, want))
     b = cbuild.builddir("c19")
     try:
         _exe = cbuild.compile(b, "drv_c19", [os.path.join(cbuild.CSRC, "drv_c19.c"),
@@ -83,7 +131,9 @@ def run(ctx):
         if rc != 0:
             raise cbuild.HarnessError("dump failed: %s" % err[-500:])
         npy = 0
-        for cnt, bad in ctx.pmap(_pycmp, [(cuts[i], cuts[i + 1]) for i in range(n)]):
+        # (when the decomposition turned out to depend on the calls made before, a per-value comparison has no
+        # meaning - and would not replay: it is left out and the run is not exhaustive)
+        for cnt, bad in ([] if bad_hist else ctx.pmap(_pycmp, [(cuts[i], cuts[i + 1]) for i in range(n)])):
             npy += cnt
             for fn, p, c in bad:
                 ctx.violation("C19:python-vs-c", {"kind": "py", "fn": fn, "delta": 0},
@@ -92,7 +142,7 @@ def run(ctx):
         c.update(tot)
         c["python_vs_c_compared"] = npy
         c["traces_validated_against_impl"] = tot["transitions"]
-        c["exhaustive"] = tot["states"] == HYPER and npy == HYPER
+        c["exhaustive"] = tot["states"] == HYPER and npy == HYPER and not bad_hist
         c["evaluations"] = tot["transitions"] + tot["roundtrips"] + npy
         c["distinct_nontrivial"] = tot["states"]
         c["rule"] = "every frame number 0..2715647 is a state; every (state, delta) pair is a transition, each executed once"
@@ -106,6 +156,12 @@ def run(ctx):
 
 def replay(ctx, case):
     global _exe
+    if case["kind"] == "py-history":
+        _, bad = _history_leg(case["index"])
+        for i, fn, prev, p, want in bad[:1]:
+            ctx.violation("C19:python-history", case, "fn2gsm_time(%d) = %r after fn2gsm_time(%s) (call %d), demanded %r"
+                          % (fn, p, prev, i, want))
+        return
     b = cbuild.builddir("c19r")
     try:
         _exe = cbuild.compile(b, "drv_c19", [os.path.join(cbuild.CSRC, "drv_c19.c"),
